@@ -98,7 +98,21 @@ class Calls(DataModels):
         fn = code.co_filename
         if not fn.startswith(REPO + '/'):
             return None
-        return (os.path.relpath(fn, REPO), f.__qualname__)
+        rel, q = os.path.relpath(fn, REPO), f.__qualname__
+        if q.endswith('<lambda>'):
+            # lambdas are named by their ordinal among the lambdas of the enclosing scope
+            # (source order), found through the line the code object starts at
+            outer = q[:-len('<lambda>')].rstrip('.').replace('.<locals>', '')
+            try:
+                scope = extract.find(rel, outer) if outer else extract.load(rel)[1]
+            except extract.ExtractError:
+                return (rel, q)
+            lams = sorted([n for n in ast.walk(scope) if isinstance(n, ast.Lambda)],
+                          key=lambda n: (n.lineno, n.col_offset))
+            hits = [i for i, n in enumerate(lams) if n.lineno == code.co_firstlineno]
+            if len(hits) == 1:
+                return (rel, (outer + '.' if outer else '') + '<lambda>%d' % hits[0])
+        return (rel, q)
 
     # --------------------------------------------------------------- dispatch
     def call(self, I, func, args, kw, node, fr):
@@ -217,7 +231,7 @@ class Calls(DataModels):
                     return obj.fields.get(k, args[1] if len(args) > 1 else None)
                 raise Unsupported('record.get with symbolic key')
             if name in ('copy', '__copy__'):
-                return SRec(dict(obj.fields), obj.kind)
+                return SRec(dict(obj.fields), obj.kind, obj.tag, obj.present)
             if name == 'keys':
                 return list(obj.fields.keys())
             if name == 'items':
@@ -565,7 +579,7 @@ class Calls(DataModels):
             n = SStream(v.arr, v.length, v.pos, v.name)
             n.closed = v.closed
         elif isinstance(v, SRec):
-            n = SRec({}, v.kind)
+            n = SRec({}, v.kind, v.tag, v.present)
             memo[id(v)] = n
             n.fields = {k: self.snap(x, memo) for k, x in v.fields.items()}
         elif isinstance(v, SObj):
@@ -590,7 +604,12 @@ class Calls(DataModels):
         """specification function written in the python subset: executed by the
         same evaluator (pure mode keeps BoolOps as terms)."""
         if getattr(func, '_native', False):
-            return func(I, *args, **kw)
+            try:
+                return func(I, *args, **kw)
+            except (KeyError, AttributeError) as ex:
+                # the specification reads a component the actual argument does not have (wrong
+                # kind of object passed): not evaluable, like an attribute error in the expression
+                raise PyExc('AttributeError', line_of(node), 'specification %s: %r' % (func.__name__, ex))
         src = inspect.getsource(func)
         tree = _spec_ast(func, src)
         sf = SFunc(tree, None, func.__qualname__, inspect.getmodule(func))
@@ -872,6 +891,9 @@ def _b_isinstance(M, I, args, kw, node):
             rc = M.real_class(v.cls)
             if rc is not None and isinstance(c, type) and issubclass(rc, c):
                 return True
+        if isinstance(v, SRec) and isinstance(c, type) and v.tag is not None:
+            from .vals import kind_id
+            return v.tag == kind_id(c.__name__)
         if isinstance(v, SRec) and isinstance(c, type) and c.__name__ == v.kind:
             return True
         if isinstance(v, Code):
@@ -1050,7 +1072,7 @@ def _b_copy(M, I, args, kw, node):
             n.is_structs = True
         return n
     if isinstance(v, SRec):
-        return SRec(dict(v.fields), v.kind)
+        return SRec(dict(v.fields), v.kind, v.tag, v.present)
     if isinstance(v, list):
         return list(v)
     if isinstance(v, dict):
